@@ -36,10 +36,12 @@ from vf.solovev_c12 import Solovev, Bounds, point_in_polygon, polygon_distance
 ID = "C12"
 LEVEL = "exploration"
 RULE = ("one case = one equilibrium (bundled example, Generomak, or a synthetic Solov'ev-type EFITEquilibrium on a "
-        "20..65 x 20..65 grid with random shape, either sign of psi_lcfs - psi_axis, optional axis-value offset that makes "
+        "20..65 x 20..65 rectilinear grid (uniform, or geometrically / sinh-stretched in r, z or both with spacing ratio up to 5; "
+        "limiter polygon none / generous / close-fitting with facets cutting inside the LCFS / partial box / identical to the "
+        "LCFS polygon) with random shape, either sign of psi_lcfs - psi_axis, optional axis-value offset that makes "
         "the clamp decisive, LCFS polygon of 8..120 vertices scaled 0.9..1.06 about the axis) x one scalar profile and three "
         "velocity profiles (Python callables, Function1D algebra, Function1D interpolators, 2xN lists/arrays; either sign, "
-        "amplitudes 1e-2..1e4) x outside value (default / 0 / +-x / vector) x ~82 points (uniform, near axis, within "
+        "amplitudes 1e-2..1e4) x outside value (default / 0 / +-x / vector) x ~90 points (uniform, near axis, within "
         "3e-6..3e-2 of LCFS polygon edges and of psi_n = 1, private-flux / x-point region, grid nodes, outer cell ring, boundary lines and corners, "
         "inside LCFS) each with two toroidal angles, plus 28 exact special 3-D positions per case (y = +-0.0 with x of either "
         "sign, x = +-0.0 with y of either sign, exact 45-degree diagonals, one coordinate subnormal / 1e-300 / 1e-17 r); a case is non-trivial when inside-LCFS and outside-LCFS map "
@@ -55,7 +57,7 @@ LEVEL_NOTE = ("trusted: own point-in-polygon test, analytic Solov'ev formulae an
 TECHNIQUE = ("runtime monitoring: invariants over a sampled field (composition, LCFS blend, axisymmetry, orthonormal "
              "basis, analytic Solov'ev field within a computed discretisation bound)")
 ASSUMPTIONS = ["2xN profile tables cover psi_n in [0, 1] (tables that do not are out of the profile's own domain)",
-               "synthetic grids are uniform (as EFIT grids are); bundled-grid field magnitudes are not judged (np.gradient "
+               "synthetic grids are rectilinear, uniform or smoothly stretched (total spacing ratio <= 5); bundled-grid field magnitudes are not judged (np.gradient "
                "discretisation up to 11 % of max), only orientation",
                "points where the in-plane field is exactly zero have no defined basis and are skipped (counted)"]
 ASAN_MODULES = ['cherab.tools.equilibrium.efit', 'cherab.core.math.mappers', 'cherab.core.math.mask', 'cherab.core.math.clamp']
@@ -67,13 +69,13 @@ REQUIRED = {"psin_nonneg": 20000, "psin_clamp_decisive": 20, "psin_def": 20000, 
             "basis": 20000, "b_normal": 20000, "field_analytic": 5000, "field_orientation": 1000,
             "vec2d_inside": 4000, "vec2d_outside": 4000, "vec3d": 8000, "map3d_special": 3000, "vec3d_special": 9000,
             "pts3d_y0": 400, "pts3d_x0": 400, "pts3d_diag": 400, "pts3d_y_subnormal": 400, "pts3d_x_subnormal": 400,
-            "pts3d_tiny": 800, "pts_private_flux": 100, "pts_listing_seam": 1500, "seq_first": 2000, "seq_remap": 4000,
+            "pts3d_tiny": 800, "pts_private_flux": 100, "pts_listing_seam": 1500, "pts_inside_lcfs_outside_limiter": 300, "field_analytic_nonuniform": 10000, "seq_first": 2000, "seq_remap": 4000,
             "seq_other": 2000,
             "pts_polygon_inside_psin_gt_1": 30}
 
 SAFETY = 8.0          # factor on the computed discretisation bounds (their constants are worst-case estimates)
 EDGE_EXCL = 1e-6      # undecidable band around LCFS polygon edges / psi_n = 1
-NPTS = 82
+NPTS = 90
 CHORD_EPS = 1e-12    # 'on an internal triangulation edge': the cracks of the mesh point location are ~1e-16 m wide
 COS_MIN = 0.8        # orientation only: np.gradient-vs-interpolant deviations reach 11 % of max|B_pol| (asin(0.11/0.3) = 21 deg)
 
@@ -161,14 +163,48 @@ def _polygon(sol, e):
     return vx, vy
 
 
+def _axis(lo, hi, n, g):
+    """Rectilinear axis: uniform, or stretched with spacings d_k ~ q^(k/(n-2)) ('geo', monotone, total ratio q, either
+    direction) or ~ cosh-like refinement around a centre ('sinh': finest at fraction c of the axis, ratio q to the ends)."""
+    if not g or g.get("kind", "uniform") == "uniform":
+        return np.linspace(lo, hi, n)
+    k = np.arange(n - 1) / max(1, n - 2)
+    q = g["q"]
+    if g["kind"] == "geo":
+        w = q ** (k if g.get("up", True) else 1 - k)
+    else:
+        w = 1.0 + (q - 1.0) * np.minimum(1.0, np.abs(k - g.get("c", 0.5)) / max(g.get("c", 0.5), 1 - g.get("c", 0.5))) ** 2
+    x = lo + (hi - lo) * np.concatenate([[0.0], np.cumsum(w) / np.sum(w)])
+    x[-1] = hi
+    return x
+
+
+def _limiter(sol, e, r, z, vx, vy):
+    """Limiter polygon in every relation to the LCFS polygon (the property's clauses must not depend on it)."""
+    mode = e.get("limiter_mode", "generous" if e.get("limiter") else "none")
+    if mode == "none":
+        return None, None
+    if mode == "generous":
+        return np.array([r[1], r[-2], r[-2], r[1]]), np.array([z[1], z[1], z[-2], z[-2]])
+    f = e.get("limiter_f", [0.5, 0.5, 0.5])
+    if mode == "close":           # few straight facets on a contour 0..3 % outside the LCFS: the facets cut inside the LCFS
+        n = 5 + int(5 * f[0])
+        return sol.lcfs(n, 1.0 + 0.03 * f[1], 2 * np.pi * f[2])
+    if mode == "partial":         # a box that contains only part of the plasma
+        return (np.array([sol.R0 - (0.6 * f[0] - 0.1) * sol.a, r[-2], r[-2], sol.R0 - (0.6 * f[0] - 0.1) * sol.a]),
+                np.array([sol.Z0 - 0.6 * f[1] * sol.kappa * sol.a, sol.Z0 - 0.6 * f[1] * sol.kappa * sol.a, z[-2], z[-2]]))
+    return vx.copy(), vy.copy()   # identical to the LCFS polygon
+
+
 def _sol_geom(e):
     sol = Solovev(e["R0"], e["a"], e["kappa"], e["tau"], e["Z0"], e["psi_axis"], e["psi_lcfs"])
-    r = np.linspace(e["rmin"], e["rmax"], e["nr"])
-    z = np.linspace(e["zmin"], e["zmax"], e["nz"])
+    r = _axis(e["rmin"], e["rmax"], e["nr"], e.get("grid_r"))
+    z = _axis(e["zmin"], e["zmax"], e["nz"], e.get("grid_z"))
     vx, vy = _polygon(sol, e)
+    lx, ly = _limiter(sol, e, r, z, vx, vy)
     RR, ZZ = np.meshgrid(r, z, indexing="ij")
     return dict(kind="solovev", r=r, z=z, psi=sol.psi(RR, ZZ), axis=(sol.R0, sol.Z0), vx=vx, vy=vy,
-                psi_axis=e["psi_axis_eq"], psi_lcfs=e["psi_lcfs"], special=[], sol=sol)
+                psi_axis=e["psi_axis_eq"], psi_lcfs=e["psi_lcfs"], special=[], sol=sol, lx=lx, ly=ly)
 
 
 def _geom(e):
@@ -199,7 +235,21 @@ def _gen_solovev(rng):
     poly_n = int(rng.choice([8, 12, 24, 60, 120]))
     roll = 0 if (mode in ("mirror", "shared_z") and rng.random() < 0.75) else int(rng.integers(0, 120))
     poly_f = [float(v) for v in rng.uniform(0.2, 1.0, 4)]
-    return dict(kind="solovev", poly_mode=mode, poly_roll=roll, poly_f=poly_f, R0=R0, a=a, kappa=kappa, tau=tau, Z0=Z0, psi_axis=psi_axis, psi_lcfs=psi_axis + delta,
+
+    def grid():
+        u_ = rng.random()
+        if u_ < 0.5:
+            return dict(kind="uniform")
+        if u_ < 0.8:
+            return dict(kind="geo", q=float(rng.uniform(1.3, 5.0)), up=bool(rng.random() < 0.5))
+        return dict(kind="sinh", q=float(rng.uniform(1.3, 5.0)), c=float(rng.uniform(0.3, 0.7)))
+    stretch = ["none", "none", "r", "z", "both"][int(rng.integers(5))]
+    grid_r = grid() if stretch in ("r", "both") else dict(kind="uniform")
+    grid_z = grid() if stretch in ("z", "both") else dict(kind="uniform")
+    limiter_mode = ["none", "generous", "close", "close", "partial", "identical"][int(rng.integers(6))]
+    limiter_f = [float(v) for v in rng.uniform(0, 1, 3)]
+    return dict(kind="solovev", poly_mode=mode, poly_roll=roll, poly_f=poly_f, grid_r=grid_r, grid_z=grid_z,
+                limiter_mode=limiter_mode, limiter_f=limiter_f, R0=R0, a=a, kappa=kappa, tau=tau, Z0=Z0, psi_axis=psi_axis, psi_lcfs=psi_axis + delta,
                 psi_axis_eq=psi_axis + eps * delta, nr=int(rng.integers(20, 66)), nz=int(rng.integers(20, 66)),
                 rmin=float(max(0.08 * R0, r_in - m[0] * a)), rmax=float(r_out + m[1] * a),
                 zmin=float(Z0 - zh * (1 + m[2])), zmax=float(Z0 + zh * (1 + m[3])),
@@ -266,6 +316,17 @@ def _gen_points(rng, G, n):
     L = np.hypot(ex, ey) + 1e-300
     d = rng.choice([-1.0, 1.0], 2 * k) * 10 ** rng.uniform(np.log10(3e-6), np.log10(3e-2), 2 * k)
     add(x0 + t * ex - ey / L * d, y0 + t * ey + ex / L * d, "polygon_edge")
+    # near the limiter polygon's edges (both sides): the LCFS clauses must not depend on the limiter
+    if G.get("lx") is not None:
+        lx, ly = G["lx"], G["ly"]
+        nl = len(lx)
+        i = rng.integers(0, nl, k)
+        t = rng.uniform(0, 1, k)
+        x0, y0, x1, y1 = lx[i], ly[i], lx[(i + 1) % nl], ly[(i + 1) % nl]
+        ex, ey = x1 - x0, y1 - y0
+        L = np.hypot(ex, ey) + 1e-300
+        d = rng.choice([-1.0, 1.0], k) * 10 ** rng.uniform(-5, np.log10(3e-2), k)
+        add(x0 + t * ex - ey / L * d, y0 + t * ey + ex / L * d, "limiter_edge")
     # inside the two triangles at the seam of the vertex listing: (v[-2], v[-1], v[0]) and (v[-1], v[0], v[1])
     kc = max(2, k // 2)
     for tri in ((-2, -1, 0), (-1, 0, 1)):
@@ -304,7 +365,7 @@ def _gen_points(rng, G, n):
         zb = [float(rng.uniform(z[0], z[-1])), float(rng.uniform(z[0], z[-1])), z[0], z[-1], z[-1], z[0]][sd]
         out.append([float(rb), float(zb), "boundary"])
     # inside the LCFS: polygon points shrunk towards the axis
-    m = n - len(out)
+    m = max(k, n - len(out))
     i = rng.integers(0, nv, m)
     f = np.sqrt(rng.uniform(0.0, 1.0, m)) * 0.995
     add(ax + f * (vx[i] - ax), az + f * (vy[i] - az), "inside")
@@ -508,9 +569,7 @@ def _build_equilibrium(e, G):
     fprof = np.array([xk, e["f_edge"] * (1 + e["f_alpha"] * (1 - xk))])
     qprof = np.array([xk, 1.0 + 2.0 * xk ** 2])
     r, z = G["r"], G["z"]
-    lim = None
-    if e["limiter"]:
-        lim = np.array([[r[1], r[-2], r[-2], r[1]], [z[1], z[1], z[-2], z[-2]]])
+    lim = None if G["lx"] is None else np.array([G["lx"], G["ly"]])
     return EFITEquilibrium(r, z, G["psi"], e["psi_axis_eq"], e["psi_lcfs"], Point2D(e["R0"], e["Z0"]), [], [], fprof, qprof,
                            e["r_vac"], e["f_edge"] / e["r_vac"], np.array([G["vx"], G["vy"]]), lim, 0.0)
 
@@ -656,6 +715,8 @@ def _run(case, ctx):
         ctx.cls("polygon:" + ("exact" if e["poly_scale"] == 1.0 else ("shrunk" if e["poly_scale"] < 1 else "grown")))
         ctx.cls("polygon_listing:%s%s" % (e.get("poly_mode", "param"), ":first-last-share-coordinate"
                                           if (G["vx"][0] == G["vx"][-1] or G["vy"][0] == G["vy"][-1]) else ""))
+        ctx.cls("grid:r=%s,z=%s" % (e.get("grid_r", {}).get("kind", "uniform"), e.get("grid_z", {}).get("kind", "uniform")))
+        ctx.cls("limiter:" + e.get("limiter_mode", "generous" if e.get("limiter") else "none"))
         ctx.cls("axis_value:" + ("offset" if e["psi_axis_eq"] != e["psi_axis"] else "exact"))
     prof = case["profile"]
     ctx.cls("profile:" + prof["kind"])
@@ -806,6 +867,10 @@ def _run(case, ctx):
     ctx.mon("pts_polygon_inside_psin_gt_1", int((dec & pin & (psin > 1.0)).sum()))
     seam = np.array([w[5] is not None and pts[w[5]][4] == "listing_seam" for w in rows])
     ctx.mon("pts_listing_seam", int((dec & seam).sum()))
+    if G.get("lx") is not None:
+        lin = point_in_polygon(R, Z, G["lx"], G["ly"])
+        ldec = polygon_distance(R, Z, G["lx"], G["ly"]) >= EDGE_EXCL
+        ctx.mon("pts_inside_lcfs_outside_limiter", int((dec & inside & ldec & ~lin).sum()))
     ctx.mon("pts_inside", int((dec & inside).sum()))
     ctx.mon("pts_outside", int((dec & ~inside).sum()))
     ctx.mon("lcfs_mask", int(dec.sum()))
@@ -916,6 +981,8 @@ def _run(case, ctx):
         ctx.close(B[ok_B, 2], (sol.dpsi_dR(R, Z) / R)[ok_B], "b_field:solovev:bz-not-dpsi_dr-over-r",
                   "vertical field deviates from psi_R / r of the analytic flux by more than the np.gradient + interpolation bound",
                   atol=tol_r[ok_B], monitor="field_analytic", eq=eqcls)
+        if e.get("grid_r", {}).get("kind", "uniform") != "uniform" or e.get("grid_z", {}).get("kind", "uniform") != "uniform":
+            ctx.mon("field_analytic_nonuniform", 2 * int(ok_B.sum()))
         fe, fa = e["f_edge"], e["f_alpha"]
         bi, bo = sel_in & ok_B, sel_out & ok_B
         if bi.any():
